@@ -77,14 +77,14 @@ def observe_area(cat, o, inlets, nval):
                 cat.delineate_area(o, inlets if inlets else None)
             else:
                 cat.delineate_area(o, inlets if inlets else None, nval=nval)
-    except ValueError:
+    except Exception:
         # a failed delineation must not leave the area of an earlier outlet paired with the new outlet
         stale = None
         try:
             stale = [int(c) for c in cat.idxcells_area]
             if int(cat.idxcell_outlet) != int(o):
                 stale = None          # the object still describes the earlier outlet consistently
-        except ValueError:
+        except Exception:
             pass
         out = {"err": True, "cells": [], "filled": [], "paths": []}
         if stale is not None:
@@ -242,7 +242,7 @@ def replay_grid_c11(ctx, gridmod, c, stats):
             except TimeoutError as e:
                 ctx.violation("accumulate:hang", str(e), dict(case, field=kind))
                 return
-            except ValueError as e:
+            except Exception as e:
                 ctx.violation("accumulate:error", repr(e), dict(case, field=kind))
                 return
             stats["accs"] += 1
